@@ -31,4 +31,4 @@ For each change i = 1..{n} create the directory {wt}/_seeded/{pid}_<i>/ containi
   - patch.diff : `git diff` of the change against HEAD (must apply with `git apply` on a clean checkout of HEAD),
   - demo.py    : a small standalone program (run as `PYTHONPATH=<tree> /venv/bin/python demo.py`) that exits 0 and prints PASS on the unmodified tree and exits 1 and prints FAIL on the modified tree, by exercising the public behaviour the property talks about (not by inspecting source code),
   - notes.md   : which part of the property it breaks, what exactly it needs in order to manifest, and which existing tests you ran (with their pass counts) on the modified tree.
-After saving each patch, restore the worktree (`git -C {wt} checkout -- .`) before starting the next one, and verify each demo on both the clean and the patched tree. Leave the worktree clean (only the untracked _seeded/ directory) when you finish. In your final answer list the changes with one line each.''')
+Never use `git stash` (the stash is shared by all worktrees of the repository and other people work in sibling worktrees); use `git diff > file` / `git apply` / `git apply -R` / `git checkout -- .` instead. After saving each patch, restore the worktree (`git -C {wt} checkout -- .`) before starting the next one, and verify each demo on both the clean and the patched tree. Leave the worktree clean (only the untracked _seeded/ directory) when you finish. In your final answer list the changes with one line each.''')
